@@ -161,4 +161,5 @@ func runC12(c string) string {
 func init() {
 	runners["C12"] = runC12
 	runners["C20e2e"] = runC12
+	runners["C16res"] = runC12
 }
